@@ -90,6 +90,13 @@ def build(ast, memo=None):
         var = ast.get("id")
         if var is not None and ast.get("vb") is not None:
             var = puan.variable(var, tuple(ast["vb"]))
+        form = ast.get("form")
+        if form == "gen":
+            ch = (x for x in ch)              # one-shot iterators are legal `propositions` arguments
+        elif form == "map":
+            ch = map(lambda x: x, ch)
+        elif form == "tuple":
+            ch = tuple(ch)
         if k == "AtLeast":
             r = pg.AtLeast(ast["v"], ch, variable=var, sign=ast.get("s"))
         elif k == "AtMost":
@@ -216,12 +223,13 @@ class ModelGen:
         rng = self.rng
         kind = rng.choice(self.kinds)
         v = self.fresh()
+        argform = rng.choice([None, None, None, "gen", "map", "tuple"])
         if kind == "AtLeast":
-            r = {"k": "AtLeast", "v": rng.randint(-3, 4), "s": None, "ch": self.children(depth), "id": v}
+            r = {"k": "AtLeast", "v": rng.randint(-3, 4), "s": None, "ch": self.children(depth), "id": v, "form": argform}
         elif kind == "AtLeastS":
-            r = {"k": "AtLeast", "v": rng.randint(-3, 4), "s": rng.choice([-1, 1]), "ch": self.children(depth), "id": v}
+            r = {"k": "AtLeast", "v": rng.randint(-3, 4), "s": rng.choice([-1, 1]), "ch": self.children(depth), "id": v, "form": argform}
         elif kind == "AtMost":
-            r = {"k": "AtMost", "v": rng.randint(-2, 4), "ch": self.children(depth), "id": v}
+            r = {"k": "AtMost", "v": rng.randint(-2, 4), "ch": self.children(depth), "id": v, "form": argform}
         elif kind in ("All", "Any", "Xor", "XNor"):
             r = {"k": kind, "ch": self.children(depth), "id": v}
         elif kind == "Imply":
@@ -535,6 +543,10 @@ class ConfigGen:
         return r
     def rule(self, force_id=False):
         rng = self.rng
+        if rng.random() < 0.08:
+            # an anonymous All directly containing another anonymous All (a package of packages)
+            inner = {"k": "All", "ch": self.leaves(2, 2), "id": None}
+            return {"k": "All", "ch": [inner, self.simple() if rng.random() < 0.5 else self.leaf(rng.choice(self.items))], "id": None}
         if rng.random() < 0.25:
             cond = self.leaf(rng.choice(self.items)) if rng.random() < 0.5 else {"k": rng.choice(["All", "Any"]), "ch": self.leaves(1, 3), "id": None}
             cons = self.simple() if rng.random() < 0.7 else self.leaf(rng.choice(self.items))
